@@ -551,3 +551,13 @@ func TestC04Sched(t *testing.T) {
 		"C15/callback-reply-not-well-formed": "C04/artefact-not-well-formed:concurrent", "C15/attrquery-reply": "C04/artefact-not-well-formed:concurrent",
 		"C15/metadata-reply": "C04/artefact-not-well-formed:concurrent", "C15/panic": "C04/panic"}, true)
 }
+
+// TestC10Sched: a key or storage failure that strikes one request while others are inside the same operation (a slow lookup
+// that then fails, a lookup abandoned by its user agent) stays a failure for everybody it concerns: nobody panics, nobody is
+// handed an empty certificate or an unsigned or malformed reply.
+func TestC10Sched(t *testing.T) {
+	schedUnder(t, "C10", c10Rule, []string{"cb-done-post", "cb-done-redirect", "cb-done-body", "certificate", "certificate", "metadata", "attrquery", "sso"}, map[string]string{
+		"C15/panic": "C10/panic:concurrent", "C15/certificate-reply": "C10/not-an-error-reply:certificate:concurrent", "C15/metadata-reply": "C10/not-an-error-reply:metadata:concurrent",
+		"C15/body-reply": "C10/not-an-error-reply:callback:concurrent", "C15/assertion-signature-does-not-verify": "C10/unsigned-or-wrongly-signed:concurrent",
+		"C15/success-for-pending-request": "C10/success-after-fault:concurrent"}, true)
+}
